@@ -487,7 +487,8 @@ void volumeCase(Ctx& ctx)
 					}
 				}
 			});
-			if (ot.cls != 'R') ctx.count("volume/torn-volume-not-opened");
+			if (ot.cls != 'R') ctx.count("volume/torn-volume-not-opened");   // a reader that refuses the damaged volume as a whole extracts nothing from it
+			ctx.count("volume/torn-volumes-decided");
 		}
 	}
 	ctx.state();
